@@ -67,6 +67,13 @@ def requests(ctx):
                 last = v
                 parts.append(f"{t}={v}")
             rq.append(f"fstw s {','.join(parts)}")
+    # whole FST files written from abstract designs (gen/fst_writer.py): hierarchy entries with kinds / directions / ranges / aliases,
+    # 1..n value-change blocks, snapshot as frame or as records, packed / ASCII / 1-bit record forms, raw / zlib streams
+    from . import ghwgen
+    for _ in range(400 if quick else 6000):
+        d, _g, _v, f = ghwgen.gen_triple(rng)
+        unit = "fs" if f[73] == 0xF1 else "ps"
+        rq.append(f"fstfile {d} {unit} {f.hex()}")
     return rq
 
 
